@@ -16,7 +16,7 @@ RULE = ("histories of ~18 steps over 1-3 proxies and 1-5 concurrently open strea
         "{0,5} x ITER_STREAM_LINGER {0,3} x both server types. distinct = (history hash, step); non-trivial = the step concerns an open stream")
 ASSUMPTIONS = ["the virtual clock starts at 1e9 (a linger stamp of 0 means 'none' in Pyro's code)", "after every client-side disconnect / oneway close the harness waits for the server-side event (10 s watchdog, expiry = inconclusive)",
                "a stream whose deadline has passed may be forgotten at any time until the next explicit housekeeping step, after which it must be gone"]
-REQUIRED_REACH = ["items_ok", "stopiteration_ok", "generator_exception_ok", "forgotten_ok", "reconnect_continues", "linger_expired", "lifetime_expired", "table_checked", "streaming_disabled_ok"]
+REQUIRED_REACH = ["items_ok", "stopiteration_ok", "generator_exception_ok", "forgotten_ok", "reconnect_continues", "linger_expired", "lifetime_expired", "table_checked", "streaming_disabled_ok", "racing_reconnects"]
 SHARD_TIMEOUT = {"quick": 240, "thorough": 3000}
 
 
@@ -235,7 +235,7 @@ def run_history(fx, vclock, rec, r, cfg, nsteps, hh):
                         if ms.state != "gone":
                             return fail("closed-stream-not-forgotten", "server still holds the stream 10 s after close()", step)
                     ms.state = "gone"
-            elif k < 0.78:
+            elif k < 0.77:
                 i = r.randrange(nprox)
                 if proxies[i]._pyroConnection is None:
                     continue
@@ -254,6 +254,42 @@ def run_history(fx, vclock, rec, r, cfg, nsteps, hh):
                         else:
                             ms.state = "gone"
                 conns[i] = None
+            elif k < 0.815 and cfg["linger"] > 0 and fx.servertype == "thread" and getattr(fx, "gate", None) is not None:
+                # racing reconnect: the client drops its connection, reconnects and fetches at once, while the worker that serves the OLD connection
+                # is slow to notice the disconnect (a schedule, produced with a delay at the entry of the daemon's disconnect handling)
+                i = r.randrange(nprox)
+                mine = [(ms, it) for ms, it in live if ms.proxy_i == i and ms.state == "alive" and ms.pos < len(ms.items) and ms.conn == conns[i]]
+                if proxies[i]._pyroConnection is None or not mine:
+                    continue
+                ms, it = r.choice(mine)
+                pay["steps"].append(("racing-reconnect", i, ms.sid[:6]))
+                rec.case((repr(sorted(cfg.items())), hh, step), nontrivial=True)
+                old_serial = conns[i]
+                fx.gate["event"].clear()
+                fx.gate["serial"] = old_serial
+                try:
+                    proxies[i]._pyroRelease()
+                    connect(i)
+                    try:
+                        got = ("item", next(it))
+                    except Exception as x:
+                        got = ("error", repr(x))
+                finally:
+                    fx.gate["serial"] = None
+                    fx.gate["event"].set()
+                if not fx.wait_until(lambda: any(e[2] == old_serial for e in d.evlog.of("disconnect")), 10.0):
+                    rec.inconc("server-side disconnect not observed within the watchdog")
+                    return True
+                real_time.sleep(0.002)
+                if got[0] != "item" or not gen.deep_eq(normalise(got[1]), normalise(ms.items[ms.pos])):
+                    return fail("stream-item-wrong", "after an immediate reconnect expected item %d = %r, client got %r" % (ms.pos, ms.items[ms.pos], got), step)
+                ms.pos += 1
+                ms.conn = conns[i]          # fetched over the new connection: the stream lives on with it
+                ms.linger_at = 0
+                for other, _ in streams:
+                    if other is not ms and other.proxy_i == i and other.conn == old_serial and other.state != "gone":
+                        other.linger_at = vclock.now
+                rec.count("racing_reconnects")
             elif k < 0.86:
                 i = r.randrange(nprox)
                 if proxies[i]._pyroConnection is not None:
@@ -324,6 +360,21 @@ def plan(tier, seed):
     return shards
 
 
+def install_gate(fx):
+    """delay point at the entry of the daemon's disconnect handling (thread server only: there the old connection's worker and the new connection's
+    worker really run concurrently); armed per connection serial by the 'racing-reconnect' step"""
+    gate = {"serial": None, "event": threading.Event()}
+    d = fx.daemon
+    orig = d._clientDisconnect
+
+    def delayed(conn):
+        if gate["serial"] is not None and getattr(conn, "_vserial", None) == gate["serial"]:
+            gate["event"].wait(5)
+        return orig(conn)
+    d._clientDisconnect = delayed
+    fx.gate = gate
+
+
 def run_shard(shard, rec):
     P = fixture.pyro()
     r = gen.rng(rec.seed, "c10", repr(sorted(shard.items())))
@@ -335,6 +386,8 @@ def run_shard(shard, rec):
                          ITER_STREAM_LINGER=float(shard["linger"]), THREADPOOL_SIZE=20)
     try:
         fx.register(make_service(P), "src")
+        if shard["servertype"] == "thread":
+            install_gate(fx)
         for h in range(shard["histories"]):
             if rec.should_stop(8):
                 break
@@ -357,6 +410,8 @@ def replay(payload, rec):
                          ITER_STREAM_LINGER=float(cfg["linger"]), THREADPOOL_SIZE=20)
     try:
         fx.register(make_service(P), "src")
+        if cfg["servertype"] == "thread":
+            install_gate(fx)
         for i, s in enumerate(payload["steps"]):
             print("recorded step", i, s)
         try:
